@@ -61,7 +61,7 @@ def jobs(tier, seed):
     alphabet = BOUNDS[tier]["alphabet"]
     za = alphabet + [0, 0]
     out = []
-    n = 70 if tier == "quick" else 900
+    n = 120 if tier == "quick" else 2000
     for i in range(n):
         nv = rng.choice([2, 3] if tier == "quick" else [2, 3, 4])
         names = ["x", "y", "z", "w"][:nv]
@@ -102,7 +102,7 @@ def jobs(tier, seed):
             out.append({"kind": "right-empty", "L": Ls, "R": []})
             out.append({"kind": "left-empty", "L": [], "R": free(R)})
     # contracts
-    nc = 40 if tier == "quick" else 500
+    nc = 80 if tier == "quick" else 1500
     for i in range(nc):
         c1 = CS.rand_contract(rng, ["x"], ["y"], alphabet, na=(0, 1, 2), ng=(1, 2))
         mode = rng.choice(["self", "weaker-a", "random", "needs-assumption", "mismatch", "mismatch-roles"])
@@ -127,7 +127,7 @@ def jobs(tier, seed):
                 c2["g"] = [{"z": 1}]
         out.append({"kind": "contract:" + mode, "c1": c1, "c2": c2, "via": rng.choice(["refines", "le"])})
     # environment / implementation membership
-    for i in range(20 if tier == "quick" else 200):
+    for i in range(30 if tier == "quick" else 600):
         c = CS.rand_contract(rng, ["x"], ["y"], alphabet, na=(1, 2), ng=(1, 2))
         comp = [B.rterm(rng, ["x"], alphabet) for _ in range(rng.choice([1, 2]))]
         out.append({"kind": "environment", "c": c, "comp": free(comp)})
